@@ -776,6 +776,7 @@ class DirectPtychography(RNGMixin, AutoSerialize):
             self.semiangle_cutoff,
             self.angular_sampling,
             self.wavelength,
+            soft_edges=self.soft_edges,
             aberration_coefs=aberration_coefs,
         )
         BF_weights = cmplx_probe_k[bf_mask].abs().square().sum()
